@@ -530,9 +530,14 @@ fn codecs(rep: &mut Report, r: &mut Rng, thorough: bool) {
                     break;
                 }
             }
-            Err(_) => {
+            Err(e) => {
                 if v < 4096 {
                     rep.violation("Pcid::new|rejected-valid", J::U(v as u64));
+                    break;
+                }
+                // the error names the value that was refused
+                if format!("{:?}", e) != format!("PcidTooBig({})", v) {
+                    rep.violation("Pcid::new|error-names-another-value", J::obj(vec![("value", J::U(v as u64)), ("error", J::s(format!("{:?}", e)))]));
                     break;
                 }
             }
